@@ -47,6 +47,12 @@ pub fn observe(node: &Node, fresh_caches: bool) -> BTreeMap<String, String> {
         o.insert(k("proposals"), store.get_block_proposal_txs_ids(&hash).map(|p| dg(p.as_slice())).unwrap_or("NONE".into()));
         o.insert(k("extension"), store.get_block_extension(&hash).map(|e| dg(e.as_slice())).unwrap_or("NONE".into()));
         o.insert(k("number"), store.get_block_number(&hash).map(|x| x.to_string()).unwrap_or("NONE".into()));
+        // every cached getter once more, right away: an answer must not depend on having been asked before
+        o.insert(k("header#2"), store.get_block_header(&hash).map(|h| dg(h.data().as_slice())).unwrap_or("NONE".into()));
+        o.insert(k("txs_hashes#2"), { let b = store.get_block_txs_hashes(&hash); format!("{}:{}", b.len(), dg(&b.iter().flat_map(|t| t.as_slice().to_vec()).collect::<Vec<u8>>())) });
+        o.insert(k("uncles#2"), store.get_block_uncles(&hash).map(|u| dg(u.data().as_slice())).unwrap_or("NONE".into()));
+        o.insert(k("proposals#2"), store.get_block_proposal_txs_ids(&hash).map(|p| dg(p.as_slice())).unwrap_or("NONE".into()));
+        o.insert(k("extension#2"), store.get_block_extension(&hash).map(|e| dg(e.as_slice())).unwrap_or("NONE".into()));
         o.insert(k("ancestor_from_tip"), store.get_ancestor(&tip_hash, n).map(|h| dg(h.hash().as_slice())).unwrap_or("NONE".into()));
         if let Some(b) = store.get_block(&hash) {
             for (i, tx) in b.transactions().iter().enumerate() {
